@@ -498,6 +498,12 @@ func (sc *vcliSrvConn) onHeadersFrame(f h2ref.Frame) {
 	sc.logf("C>S HEADERS s=%d flags=0x%x len=%d | server-view open=%d limit(acked)=%s limit(permissive)=%s", id, f.Flags, f.Length,
 		sh.openCount, vcliLim(sh.maxStreams), vcliLim(limit))
 	sc.S.R.Event("streams_opened", 1)
+	if sc.S.CheckGoAway && sh.goAwaySettled {
+		sc.viol("new-stream-after-goaway", "client opened stream %d although a quiescent point has passed since the server's GOAWAY (last-stream-id %d) was delivered", id, sh.goAwayLast)
+	}
+	if sh.goAwaySent {
+		sc.S.R.Event("headers_in_flight_across_goaway", 1)
+	}
 	if sc.S.CheckStreams {
 		if id%2 == 0 {
 			sc.viol("even-stream-id", "client opened stream %d", id)
@@ -869,8 +875,11 @@ type vcliSession struct {
 	CheckFlow    bool
 	CheckStreams bool
 	Strict       bool
+	CheckGoAway  bool
 
 	Delay *vcliDelayer
+
+	OnNewConn func(sc *vcliSrvConn) // set before the first request
 
 	mu      sync.Mutex
 	conns   []*vcliSrvConn
@@ -911,6 +920,9 @@ func (s *vcliSession) newSrvConn() *vcliSrvConn {
 	sc.Sh = vcliShadow{connWin: 65535, initWin: 65535, maxFrame: 16384, maxStreams: vcliUnlimited, streams: map[uint32]*vcliStream{}}
 	sc.hdec = hpack.NewDecoder(4096, func(hf hpack.HeaderField) { sc.hfields = append(sc.hfields, hf) })
 	sc.henc = hpack.NewEncoder(&sc.hencBuf)
+	if s.OnNewConn != nil {
+		s.OnNewConn(sc) // may run on a goroutine of the code under test (dial): only touch sc
+	}
 	s.mu.Lock()
 	sc.Idx = len(s.conns)
 	s.conns = append(s.conns, sc)
@@ -1148,3 +1160,14 @@ func (s *vcliSession) Teardown() {
 
 // vcliSleepVirtual advances the bubble's clock (e.g. past the pool's retry back-off).
 func vcliSleepVirtual(ms int) { time.Sleep(time.Duration(ms) * time.Millisecond) }
+
+// vcliPanicSig shortens a recovered panic value to a stable violation-key suffix.
+func vcliPanicSig(e any) string {
+	s := fmt.Sprint(e)
+	if i := strings.IndexAny(s, ":\n"); i > 0 && i < 60 {
+		s = s[:i]
+	} else if len(s) > 60 {
+		s = s[:60]
+	}
+	return s
+}
